@@ -7,6 +7,9 @@ import json, os, re, subprocess, sys, time
 VERIF = os.path.dirname(os.path.dirname(os.path.abspath(__file__)))
 EXTRA = {'C01': ['C14'], 'C13-1': ['C18'], 'C14': ['C01'], 'C07': ['C08']}
 NEEDS = {}
+import shutil, tempfile
+BACKUP = tempfile.mkdtemp()
+shutil.copytree(os.path.join(VERIF, 'evidence'), os.path.join(BACKUP, 'evidence'))  # evidence must only come from the unchanged tree
 seeds = sorted(os.listdir(os.path.join(VERIF, 'seeded')))
 only = sys.argv[1:] 
 for sd in seeds:
@@ -40,4 +43,7 @@ for sd in seeds:
     }
     json.dump(meta, open(os.path.join(d, 'meta.json'), 'w'), indent=1)
     print(sd, 'caught by', caught or 'NOTHING', {c: r['violations'][:3] for c, r in results.items()}, flush=True)
+shutil.rmtree(os.path.join(VERIF, 'evidence'))
+shutil.copytree(os.path.join(BACKUP, 'evidence'), os.path.join(VERIF, 'evidence'))
+shutil.rmtree(BACKUP)
 subprocess.call(['git', '-C', '/repo', 'status', '--short'])
